@@ -13,4 +13,7 @@ CASES = [
      "edits": [(GB, '        mode_names = ["q[{}]".format(i) for i in modes]', '        mode_names = ["q[{}]".format(i) for i in range(len(modes))]')]},
     {"id": "twin-reduce-local", "expect": "silent",
      "edits": [(S, "        mu, cov = self.reduced_gaussian(sorted(modes))\n        num = np.exp(", "        wanted = sorted(modes)\n        mu, cov = self.reduced_gaussian(wanted)\n        num = np.exp(")]},
+    {"id": "bosonic-state-sorted-selection", "expect": "fire", "key": "C16.labels",
+     "edits": [("backends/bosonicbackend/backend.py", "        mode_ind = np.array([[2 * m, 2 * m + 1] for m in modes]).flatten()\n",
+                "        mode_ind = np.sort(np.append(2 * np.array(modes), 2 * np.array(modes) + 1))\n")]},
 ]
